@@ -1283,18 +1283,23 @@ def dense_run(case, modular=True, only=None, read_names=False):
 
     def go():
         spec = dense_build(case, modular, only)
+        # the interface type of a variable has no effect under the standard semantics (neither on the results nor on get_value)
+        for v, t in (case.get("io") or {}).items():
+            spec.set_var_io_type(v, t)
         args = [[v, py_sig(sig[v])] for v in vs]
         res = spec.evaluate(*args) if case["monitor"] == "offc" else spec.update(*args)
         got = {}
         if read_names:
             for nm in names:
                 got[nm] = spec.get_value(nm)
+            for v in vs:
+                got["var:" + v] = spec.get_value(v)
         return res, got
     return impl.guarded(go)
 
 
 def mod_rep(case):
-    return {"monitor": case["monitor"], "defs": [[nm, F.to_proto(b)] for nm, b in case["defs"]], "style": case["style"],
+    return {"monitor": case["monitor"], "defs": [[nm, F.to_proto(b)] for nm, b in case["defs"]], "style": case["style"], "io": case.get("io"),
             "signals": sig_rep(case["sig"]), "spec": "; ".join("%s = %s" % (nm, F.to_text(b, bound=bound_txt)) for nm, b in case["defs"])}
 
 
@@ -1303,7 +1308,8 @@ def mod_case(obj):
     defs = [(nm, F.from_proto(b)) for nm, b in obj["defs"]]
     inl = M.inline(defs)
     sig = sig_of_rep(obj["signals"])
-    return {"monitor": obj["monitor"], "defs": defs, "inl": inl, "f": inl["out"], "vars": sorted(sig), "sig": sig, "style": obj["style"]}
+    return {"monitor": obj["monitor"], "defs": defs, "inl": inl, "f": inl["out"], "vars": sorted(sig), "sig": sig, "style": obj["style"],
+            "io": obj.get("io")}
 
 
 def same_steps(a, b, mon, f, sig):
@@ -1367,6 +1373,15 @@ def check_getvalue(ctx, case):
         if ok_inl[0] != "ok" and case["monitor"] == "onc":
             return None
         return Violation("dense %s: evaluate/update/get_value raised %r: %s" % (case["monitor"], got[1:], rep["spec"]), rep, stream="getv-c")
+    # input variables (those the specification reads): the data supplied
+    for v in case["vars"]:
+        if v not in F.variables(case["f"]):
+            continue
+        gv = got[1][1].get("var:" + v)
+        want = [[float(t), x] for t, x in case["sig"][v]]
+        if gv is None or [[float(p[0]), float(p[1])] for p in gv] != want:
+            return Violation("dense %s: get_value(%r) returns %r, the data supplied is %r (io types %r): %s"
+                             % (case["monitor"], v, gv, want, case.get("io"), rep["spec"]), rep, stream="getv-c/input")
     for nm, _ in case["defs"]:
         alone = dense_run(case, only=nm)
         ctx.evaluations += 1
@@ -1385,6 +1400,9 @@ def getvalue_stream(ctx):
     for c in modular_cases(ctx, rng, ctx.budget(50, 800), DENSE_ON):
         ctx.evaluations += 1
         ctx.count("monitor:" + c["monitor"])
+        if rng.random() < 0.5:
+            c["io"] = {v_: rng.choice(["input", "output"]) for v_ in c["vars"] if rng.random() < 0.8}
+            ctx.count("io-types-declared")
         v = check_getvalue(ctx, c)
         if v is None:
             ctx.traces_validated += 1
